@@ -46,6 +46,11 @@ func vFrameOne(o *vOut, rng *rand.Rand, c vFrameCase, classes map[string]bool) {
 	if c.A == "RespFrame" {
 		add, remove, name, max = AddResponseFormat, RemoveResponseFormat, "AddResponseFormat", 65535
 	}
+	defer func() {
+		if x := recover(); x != nil {
+			o.Emit(map[string]any{"kind": "mismatch", "key": "msgformat:" + name + ":panic", "what": fmt.Sprintf("encoding / decoding a %d-byte payload panics: %v", c.N, x), "case": c})
+		}
+	}()
 	p := make([]byte, c.N)
 	rng.Read(p)
 	orig := append([]byte(nil), p...)
